@@ -17,6 +17,10 @@
 (*          how = "narrow" converted to f64        (Gamma draw)            *)
 (*   Narrow coord, nleaves   any other to_f64 (coord = -1: not a bare      *)
 (*          coordinate; nleaves = number of coordinates it depends on)     *)
+(*   Widen  value            an f64 constant that flows into a returned     *)
+(*          quantity and is neither a number stored in the sampler, one of *)
+(*          the documented exponent constants, the caller's tolerance nor  *)
+(*          the Gamma variate: no action of the model matches it           *)
 (*   Ret    out, used, logs  outcome, set of coordinates that acquired a   *)
 (*          use, keys written to the logger                                *)
 (*   Q      n, trig, a, b    Gaussian number n is trig of coordinates a, b *)
